@@ -86,6 +86,11 @@ def run_impl(op, inp):
         dev.s.keys[p] = bytes.fromhex(k)
     simdev.reset([], inp.get("conns", []), dev.exchange)
     d = tempfile.mkdtemp(prefix="verif-c18-")
+    SENT_TXT, SENT_JSON = "earlier export\n", '{"earlier": "export"}\n'
+    if inp.get("prior_output"):
+        # an export of an earlier run is already there
+        open(os.path.join(d, "out.txt"), "w").write(SENT_TXT)
+        open(os.path.join(d, "out.json"), "w").write(SENT_JSON)
     stdin_lines = list(inp.get("stdin", []))
     getpass_lines = list(inp.get("getpass", []))
     seed = bytes.fromhex(inp.get("seed", ""))
@@ -151,6 +156,28 @@ def run_impl(op, inp):
             out["ok"] = False
             out["exc"] = n if n in mgr.EXC_NAMES else "UNMAPPED:" + n
         out["events"] = list(simdev.CTX.events)
+        if inp["cmd"] == "pubkeys":
+            import gc
+            gc.collect()
+
+            def state(name, sentinel, reader):
+                pth = os.path.join(d, name)
+                if not os.path.exists(pth):
+                    return "intact" if not inp.get("prior_output") else ["<removed>"]
+                txt = open(pth).read()
+                if inp.get("prior_output") and txt == sentinel:
+                    return "intact"
+                return reader(txt)
+
+            def txt_paths(t):
+                return [tok for line in t.splitlines() for tok in line.split() if tok.startswith("m/")]
+
+            def json_paths(t):
+                try:
+                    return list(json.loads(t).keys())
+                except ValueError:
+                    return ["<not json>"]
+            out["files"] = {"txt": state("out.txt", SENT_TXT, txt_paths), "json": state("out.json", SENT_JSON, json_paths)}
         minp = dict(inp)
         minp["script"] = [simdev.norm_entry(e) for e in simdev.CTX.recorded]
         if inp["cmd"] == "pubkeys":
@@ -208,6 +235,16 @@ def gen(tier, rng):
         # pubkeys
         for no_unlock in (False, True):
             out.append(Case(OP, dict(base, cmd="pubkeys", pin="1234567a", no_unlock=no_unlock), stream="pubkeys-" + plat))
+            out.append(Case(OP, dict(base, cmd="pubkeys", pin="1234567a", no_unlock=no_unlock, prior_output=True),
+                            stream="pubkeys-" + plat))
+        # a fault at every exchange of an export over an earlier one: the files on disk stay whole
+        if onb == 1 and echo and mode in (2, 3):
+            for k in range(0, 24):
+                for f in (("W",), ("t",), ("w", 0x6A8F)):
+                    dv = {"seed": rng.getrandbits(32), "state": st, "policy": {"faults": {str(k): list(f)}}}
+                    out.append(Case(OP, dict(base, dev=dv, cmd="pubkeys", pin="1234567a", no_unlock=(mode == 3),
+                                             prior_output=bool(k % 2 == 0 or mode == 3)),
+                                    stream="pubkeys-fault-" + plat))
     if tier == "thorough":
         for _ in range(4000):
             c = rng.choice(out)
